@@ -98,7 +98,7 @@ func subMs(r *rand.Rand) time.Duration {
 
 // MinterConfig is a generated emission configuration plus its model.
 type MinterConfig struct {
-	Params   minttypes.Params // Minters listed in a shuffled order (validation sorts by sequence id)
+	Params   minttypes.Params    // Minters listed in a shuffled order (validation sorts by sequence id)
 	Sorted   []*minttypes.Minter // the same minters in ascending sequence-id order
 	Schedule model.Schedule
 	Desc     []string
